@@ -270,7 +270,7 @@ def run(ctx):
                         agg[name] = cur[:5] + (cur[5] + 1,)
     ctx.paths += n_paths
     solver_s = time.time() - t0
-    ctx.ob("C10.guard.paths", "guard", n_paths > 0 and "iteration" in statuses and "exit" in statuses, "path-enumeration", 0.0,
+    ctx.ob("C10.guard.paths", "guard", (n_paths > 0 and "iteration" in statuses and "exit" in statuses) if n_paths > 0 else None, "path-enumeration", 0.0,
            "%d paths; reached: %s" % (n_paths, sorted(set(statuses))))
     # unequal index -> ValueError
     try:
@@ -288,6 +288,9 @@ def run(ctx):
     helpers.numpy_contracts_standin(ctx, py, "C10")
     ctx.guard(_standin, ctx, py)
 
+    # "exactly once" rests on the measurement models' contract "None iff the time is absent from the table" (C06), re-established here
+    from props import C06 as _C06
+    ctx.guard(_C06._absent, ctx, py)
     # frame of the modules under contract (no state kept between calls, arguments left alone): same analysis as C19
     from props import C19 as _C19
     ctx.guard(_C19.frame_obligations, ctx, py, "C10", {'filters'})
